@@ -107,3 +107,53 @@ def with_declared_asm_sizes(decl, lines):
                 l = ('N', sum(decl.get(t, 0) for t in tags), l[2])
         out.append(l)
     return out
+
+
+def real_size_range_problems(compiled, levels=None):
+    """compiled: {pid: {variant: compile result with 'vars' and 'funcs'}} -> list of problems: conditional
+    branches whose displacement, recomputed with the sizes a 6502 ASSEMBLER gives each instruction (the
+    extracted encoder of Model/WfCode.v under a layout of the program's variables), is outside -128..127.
+    Unlike a computation with the compiler's own nb_bytes this also sees a branch left unrepaired
+    because some instruction was counted too small."""
+    from .asmsel import wf_records, run_wf
+    from .coexec import make_layout, LayoutError
+    recs = {}
+    for pid, vs in compiled.items():
+        for O, r in vs.items():
+            if r.get('status') != 'ok' or (levels and O not in levels):
+                continue
+            try:
+                lay = make_layout(r['vars'], [f['name'] for f in r.get('funcs', [])])
+            except LayoutError:
+                continue
+            funcs = {f['name']: norm_lines(f['final']) for f in r['funcs'] if f.get('final') is not None and not f.get('inline')}
+            recs['%s@%s' % (pid, O)] = (lay, funcs)
+    rep = run_wf(wf_records(recs)) if recs else {}
+    out = []
+    checked = 0
+    for key, fs in rep.items():
+        for fn, d in fs.items():
+            lines = [list(l) for l in recs[key][1][fn]]
+            for b in d.get('bad', []):
+                k, claimed, real = [int(x) for x in b.split(':')]
+                lines[k][3] = real
+            addr = []
+            a = 0
+            for l in lines:
+                addr.append(a)
+                if l[0] == 'I':
+                    a += l[3]
+                elif l[0] == 'N':
+                    a += l[1]
+            pos = {}
+            for i, l in enumerate(lines):
+                if l[0] == 'L':
+                    pos.setdefault(l[1], []).append(i)
+            for i, l in enumerate(lines):
+                if l[0] == 'I' and l[1] in ('BCC', 'BCS', 'BEQ', 'BMI', 'BNE', 'BPL') and len(pos.get(l[6], [])) == 1:
+                    checked += 1
+                    disp = addr[pos[l[6]][0]] - (addr[i] + l[3])
+                    if disp < -128 or disp > 127:
+                        out.append({'id': key, 'function': fn, 'why': 'branch %s %s at line %d of %s is %d bytes away from its label (sizes as assembled)' % (l[1], l[6], i, fn, disp)})
+                        break
+    return out, checked
